@@ -292,6 +292,9 @@ func runC20(h *Harness) {
 	if faulty {
 		h.R.Config = "faulty"
 	}
+	// how the configuration spells the work_dir (every instance of the run spells it the same way)
+	spelling := []string{"", "trailing-slash", "", "dot-prefix", "", "double-slash"}[h.Idx%6]
+	sc["workdir_spelling"] = spelling
 	w := NewWorld(h, WorldOpts{})
 	// locations with hostile names
 	nl := 2 + tp.Int(3)
@@ -422,6 +425,16 @@ func runC20(h *Harness) {
 			n = h.NewNode("n1", cfg)
 		} else {
 			n = h.NewNodeOn(fmt.Sprintf("n1c%d", c), cfg, wd)
+		}
+		switch spelling {
+		case "trailing-slash":
+			n.WorkDirAs = wd + "/"
+		case "dot-prefix":
+			if !filepath.IsAbs(wd) {
+				n.WorkDirAs = "./" + wd
+			}
+		case "double-slash":
+			n.WorkDirAs = filepath.Dir(wd) + "//" + filepath.Base(wd)
 		}
 		for _, l := range locs {
 			l.State, l.Variant = oGood, "" // configured URLs must be reachable for provisioning to be expected to succeed
